@@ -1133,6 +1133,7 @@ func runC17(c *runCtx) error {
 	runC17Grid(c, e)
 	runC17PA(c, e)
 	t3Stream(c, e)
+	g2Stream(c, e)
 	e.m.Exhaustive = c.thorough()
 	e.m.Notes = append(e.m.Notes,
 		"white space produced by the generators is ASCII; the lexer separates tokens at ' ' only, so statement cases use blanks (tabs/newlines appear in the renderer grid only)",
@@ -2119,5 +2120,235 @@ func t3Stream(c *runCtx, e *emitter) {
 				}
 			}
 		}
+	}
+}
+
+// ---------------------------------------------------------------- G2: execution errors of SELECT
+// statements WITH GROUP BY / aggregates / ORDER BY / LIMIT (corigin = 6 of Corr/C17.v).  The
+// failing expressions of t3Cores (0..1 wrappers) are placed as the argument of an aggregate
+// call, as a GROUP BY expression, as a non-aggregate field next to the aggregates (evaluated on
+// the first pair of every group only); completion errors divide by an aggregate result that is
+// zero for some group; ORDER BY / LIMIT on top.  Observed: class + Pos of the error of the row
+// drain and of the batch drain (or of BuildPlan, when AggregatePlan.Init rejects); coqc runs
+// AggErrPos.select_stmt_text_stp on the same text and store.
+
+type g2Replay struct {
+	Origin    string      `json:"origin"`
+	Query     string      `json:"query"`
+	Store     [][2]string `json:"store"`
+	BatchSize int         `json:"batch_size"`
+	Built     bool        `json:"accepted_by_BuildPlan"`
+	Row       t3Obs       `json:"row_mode"`
+	Batch     t3Obs       `json:"batch_mode"`
+	Kind      string      `json:"error_kind"`
+	Place     string      `json:"placement"`
+	Top       string      `json:"order_limit"`
+}
+
+var g2Seen = map[string]bool{}
+
+// pairs that share (first byte of the key, value): groups with more than one pair under `group by p, value`
+var g2Store = [][2]string{{"ka", "5"}, {"kb", "0"}, {"kc", "5"}, {"kd", "0"}, {"ke", "abc"}, {"za", "0"}}
+
+func g2Case(e *emitter, q string, kvs [][2]string, B int, kind, place, top string) {
+	key := fmt.Sprintf("%s|%d|%d", q, len(kvs), B)
+	if g2Seen[key] {
+		e.count("g2/duplicate_skipped")
+		return
+	}
+	g2Seen[key] = true
+	row, _, built := t3Run(q, kvs, false, B)
+	bat := row
+	if built {
+		bat, _, _ = t3Run(q, kvs, true, B)
+	} else if row.Class == "syntax" && place != "init" {
+		// the statement is ill-formed for another reason (type checker): not what this stream is about
+		e.count("g2/rejected_by_checker(not_emitted)")
+		e.count("g2/rejected_by_checker/place=" + place)
+		return
+	}
+	rp := g2Replay{Origin: "exec-stmt-twin", Query: q, Store: kvs, BatchSize: B, Built: built, Row: row, Batch: bat,
+		Kind: kind, Place: place, Top: top}
+	store := make([]string, 0, 2*len(kvs))
+	for _, kv := range kvs {
+		store = append(store, "EStr 0 "+coqStr(kv[0]), "EStr 0 "+coqStr(kv[1]))
+	}
+	builtN := 0
+	if built {
+		builtN = 1
+	}
+	term := fmt.Sprintf("Case %d 6 %s %s %s [] []%%Z None %s [%d; %d; %d]", t3ClassNum(row.Class), c17Segs(c17Encode(q, "")),
+		c17Z(row.Pos), c17Z(bat.Pos), coqList(store), t3ClassNum(bat.Class), B, builtN)
+	failing := row.Class != "ok" || bat.Class != "ok"
+	idx := e.add(term, rp, failing)
+	e.count("g2/cases")
+	e.count("g2/kind=" + kind)
+	e.count("g2/place=" + place)
+	e.count("g2/top=" + top)
+	e.count("g2/row=" + row.Class)
+	e.count("g2/batch=" + bat.Class)
+	switch {
+	case !built:
+		e.count("g2/outcome=rejected_by_AggregatePlan.Init")
+	case !failing:
+		e.count("g2/outcome=no_failure_on_this_store")
+	case row.Class == bat.Class && row.Pos == bat.Pos:
+		e.count("g2/outcome=both_modes_same_class_and_pos")
+	case row.Class == "ok" || bat.Class == "ok":
+		e.count("g2/outcome=one_mode_only")
+	default:
+		e.count("g2/outcome=modes_differ")
+	}
+	for _, o := range []t3Obs{row, bat} {
+		if (o.Class == "exec" || o.Class == "syntax") && !(o.Pos == -1 || (o.Pos >= 0 && o.Pos < len(q))) {
+			e.fail(idx, fmt.Sprintf("execution error position %d is neither -1 nor inside the %d-byte query", o.Pos, len(q)), "C17/pos-range", rp)
+			return
+		}
+	}
+}
+
+// completion errors: the divisor is an aggregate result that is zero for some group
+var g2Completion = []struct{ kind, fields, group, alias string }{
+	{"completion/count_minus_const", "10 / (count(1) - %d) as r, count(1) as c", "", "r"},
+	{"completion/count_minus_const", "sum(int(value)) / (count(1) - %d) as r, max(int(value)) as c", "", "r"},
+	{"completion/per_group_sum", "key, 100 / (sum(int(value)) - 7) as r, count(1) as c", "key", "r"},
+	{"completion/per_group_sum", "100 / sum(int(value)) as r, key", "key", "r"},
+	{"completion/per_group_nested", "key, 2 * (100 / (min(int(value)) - 5)) + 1 as r", "key", "r"},
+	{"completion/second_field", "key, count(1) as c, 1 / (max(int(value)) - 4) as r", "key", "c"},
+	{"completion/two_failing_fields", "key, 1 / (sum(int(value)) - 7) as r, 2 / (sum(int(value)) - 12) as s", "key", "r"},
+	{"completion/float_divisor", "key, 10 / (avg(int(value)) - 3) as r", "key", "r"},
+	{"completion/float_dividend", "avg(int(value)) / (sum(int(value)) - sum(int(value))) as r, count(1) as c", "", "c"},
+	{"completion/left_operand_fails_first", "(1 / (count(1) - %d)) / (count(1) - %d) as r, count(1) as c", "", "c"},
+	{"completion/prefix_groups", "substr(key, 0, 2) as p, 10 / (count(1) - 1) as r", "p", "p"},
+	{"completion/prefix_groups", "substr(key, 0, 1) as p, 10 / (sum(int(value)) - 6) as r", "p", "r"},
+}
+
+// rejected by AggregatePlan.Init inside BuildPlan
+var g2Init = []string{
+	"select group_concat(key, 1) as g where value != 'q'",
+	"select count(1) as c, group_concat(key, int(value)) as g where value != 'q'",
+	"select key, group_concat(value, 2 > 1) as g where value != 'q' group by key",
+	"select count() as c where value != 'q'",
+	"select sum(int(value), 1) as c where value != 'q'",
+	"select key, count(1) + min() as c where value != 'q' group by key",
+	"select group_concat(key) as g where value != 'q'",
+}
+
+func g2Stream(c *runCtx, e *emitter) {
+	r := newRng(c.seed*104729 + 71)
+	rounds := 1
+	if c.thorough() {
+		rounds = 6
+	}
+	if c.search {
+		rounds *= 3
+	}
+	wrapsFrom := func(ty byte) []t3Wrap {
+		var out []t3Wrap
+		for _, w := range t3Wraps {
+			if w.from == ty && !strings.Contains(w.format, "key ^=") {
+				out = append(out, w)
+			}
+		}
+		return out
+	}
+	wheres := []string{"value != 'q'", "key > ''", "key ^= 'k'", "key >= 'kb'", "value != 'q' & key != 'zz'"}
+	n := 0
+	tops := func(alias string) (string, string) {
+		n++
+		switch (n + r.intn(3)) % 7 {
+		case 0:
+			return " order by " + alias, "order"
+		case 1:
+			return " order by " + alias + " desc limit 2", "order+limit"
+		case 2:
+			return " limit 1", "limit"
+		case 3:
+			return " limit 1, 2", "limit"
+		case 4:
+			return " order by " + alias + " limit 1, 3", "order+limit"
+		}
+		return "", "none"
+	}
+	for round := 0; round < rounds; round++ {
+		for ci, core := range t3Cores {
+			for depth := 0; depth <= 1; depth++ {
+				text, ty := core.text, core.ty
+				for d := 0; d < depth; d++ {
+					w := pick(r, wrapsFrom(ty))
+					text, ty = fmt.Sprintf(w.format, text), w.to
+				}
+				kvs := t3Stores[(n+ci+round)%len(t3Stores)]
+				B := 2 + (n+depth)%2
+				wh := wheres[(n+ci)%len(wheres)]
+				var aggs []string
+				switch ty {
+				case 'n':
+					aggs = []string{"sum(%s)", "avg(%s)", "min(%s)", "max(%s)", "count(%s)", "json_arrayagg(%s)", "sum(%s) + 1", "2 * max(%s) - count(1)", "group_concat(%s, ',')"}
+				case 's':
+					aggs = []string{"group_concat(%s, '-')", "min(%s)", "sum(%s)", "count(%s)", "json_arrayagg(%s)", "group_concat(%s, ',' + ';')"}
+				default:
+					aggs = []string{"count(%s)", "sum(%s)", "json_arrayagg(%s)", "group_concat(%s, '')"}
+				}
+				ag := fmt.Sprintf(aggs[(n+round)%len(aggs)], text)
+				// 1. the argument of an aggregate call, one group
+				top, tn := tops("f")
+				g2Case(e, "select "+ag+" as f, count(1) as c where "+wh+top, kvs, B, core.kind, "aggregate_argument", tn)
+				// 2. ... with GROUP BY key / a prefix of the key, a key field in front
+				top, tn = tops("c")
+				if n%2 == 0 {
+					g2Case(e, "select key, count(1) as c, "+ag+" as f where "+wh+" group by key"+top, kvs, B, core.kind, "aggregate_argument(group_by_key)", tn)
+				} else {
+					g2Case(e, "select substr(key, 0, 1) as p, "+ag+" as f, count(1) as c where "+wh+" group by p"+top, kvs, B, core.kind, "aggregate_argument(group_by_prefix)", tn)
+				}
+				// 3. the GROUP BY expression itself
+				top, tn = tops("c")
+				g2Case(e, "select "+text+" as g, count(1) as c where "+wh+" group by g"+top, kvs, B, core.kind, "group_by_expression", tn)
+				// 4. a non-aggregate field next to the aggregates: first pair of each group only
+				top, tn = tops("c")
+				if n%2 == 0 {
+					g2Case(e, "select key, "+text+" as f, count(1) as c where "+wh+" group by key, value"+top, kvs, B, core.kind, "key_field(every_pair_opens_a_group)", tn)
+				} else {
+					g2Case(e, "select substr(key, 0, 1) as p, "+text+" as f, sum(int(value)) as c where "+wh+" group by p, value"+top, g2Store, B, core.kind, "key_field(first_pair_of_group_only)", tn)
+				}
+				// 5. in WHERE under an aggregate plan
+				if ty == 'b' {
+					top, tn = tops("c")
+					g2Case(e, "select count(1) as c, key where "+text+" group by key"+top, kvs, B, core.kind, "where_under_aggregate", tn)
+				}
+				// 6. a plain projection with ORDER BY / LIMIT on top (the order node drains its child)
+				top, tn = tops("f")
+				if tn != "none" {
+					g2Case(e, "select key, "+text+" as f where "+wh+top, kvs, B, core.kind, "projection_field", tn)
+				}
+			}
+		}
+		for ci, cp := range g2Completion {
+			for si, kvs := range t3Stores {
+				for _, wh := range []string{"value != 'q'", "key ^= 'k'"} {
+					cnt := 0
+					for _, kv := range kvs {
+						if wh == "value != 'q'" || strings.HasPrefix(kv[0], "k") {
+							cnt++
+						}
+					}
+					fields := cp.fields
+					if strings.Contains(fields, "%d") {
+						fields = strings.ReplaceAll(fields, "%d", fmt.Sprint(cnt-(ci+si+round)%2))
+					}
+					q := "select " + fields + " where " + wh
+					if cp.group != "" {
+						q += " group by " + cp.group
+					}
+					for t := 0; t < 3; t++ {
+						top, tn := tops(cp.alias)
+						g2Case(e, q+top, kvs, 2+(si+t)%2, cp.kind, "completion", tn)
+					}
+				}
+			}
+		}
+	}
+	for i, q := range g2Init {
+		g2Case(e, q, t3Stores[i%len(t3Stores)], 2, "init", "init", "none")
 	}
 }
